@@ -159,7 +159,9 @@ append (const XMLCh* const chars)
   if (fIndex + count >= fCapacity)
     expandCapacity(count);
 
-  memcpy(&fBuffer[fIndex], chars, count * sizeof(XMLCh));
+  // chars may be null (its length is 0 then), which memcpy must not be given
+  if (count != 0)
+    memcpy(&fBuffer[fIndex], chars, count * sizeof(XMLCh));
   fIndex += count;
 
   // Keep it null terminated
@@ -200,7 +202,9 @@ set (const XMLCh* const chars)
   if (count >= fCapacity)
     expandCapacity(count);
 
-  memcpy(fBuffer, chars, count * sizeof(XMLCh));
+  // chars may be null (its length is 0 then), which memcpy must not be given
+  if (count != 0)
+    memcpy(fBuffer, chars, count * sizeof(XMLCh));
   fIndex = count;
 
   // Keep it null terminated
